@@ -78,7 +78,13 @@ func (f *fnode) canon() string {
 }
 
 // chunksOf renders the bytes the writer received in the model's chunk notation.
-func chunksOf(enc string, dry bool, data []byte) string {
+func chunksOf(enc string, dry bool, data []byte) (res string) {
+	defer func() {
+		// third-party decoders may panic on truncated documents (fault-injection scenarios)
+		if r := recover(); r != nil {
+			res = "x" + hx(string(data))
+		}
+	}()
 	if len(data) == 0 {
 		return "-"
 	}
